@@ -476,7 +476,7 @@ func TestVerif_C29(t *testing.T) {
 	// self-check of the generators: every generated value alone in a file must be accepted,
 	// otherwise the cases built from it say nothing (harness bug, not a verdict)
 	for _, f := range fields {
-		for n := 0; n < 2; n++ {
+		for n := 0; n < run.N(1, 4); n++ {
 			v, ok := c29nth(f, n, 1)
 			if !ok {
 				break
@@ -706,34 +706,6 @@ func c29precedence(t *testing.T, run *verifkit.Run, rng *verifkit.Rand, f c29fie
 		}
 	}
 
-	// several CmdEnv names on one setting: the documented order within the same kind of
-	// source (specific before generic); mixed kinds are left open
-	if len(f.CmdEnv) > 1 {
-		l0, e0, _ := c29cmd(f.CmdEnv[0])
-		l1, e1, _ := c29cmd(f.CmdEnv[1])
-		v0, _ := c29nth(f, 0, salt)
-		v1, _ := c29nth(f, 1, salt)
-		want, _ := c29decode(f, v0.YAML)
-		for _, kind := range []string{"env", "flag"} {
-			ld := c29load{Files: []string{c29base}, Env: map[string]string{}}
-			if kind == "env" {
-				ld.Env[e0], ld.Env[e1] = v0.CLI, v1.CLI
-			} else {
-				ld.Args = []string{"--" + l0, v0.CLI, "--" + l1, v1.CLI}
-			}
-			r := c29run(t, ld)
-			run.Eval(1)
-			if !r.accepted() {
-				continue
-			}
-			run.Nontrivial("specific-vs-generic/" + f.Path + "/" + kind)
-			if got := c29render(c29effective(r, f)); got != c29render(want) {
-				run.Violation("C29/precedence/"+f.Path+"/specific-"+kind+"-loses-to-generic-"+kind,
-					fmt.Sprintf("%s: both %s and %s given as %s; effective %s, expected the specific one %s", f.Path, f.CmdEnv[0], f.CmdEnv[1], kind, got, c29render(want)),
-					c29case{Setting: f.Path, Load: ld, Expected: c29render(want), Got: got})
-			}
-		}
-	}
 }
 
 func bitsSet(m int) int {
@@ -1175,6 +1147,7 @@ func c29documentedNames(t *testing.T, run *verifkit.Run, fields []c29field) {
 				fmt.Sprintf("the metadata documents names for %s, which is not a setting of the loaded config", d.Path), d)
 			continue
 		}
+		effective := map[string]bool{} // documented names that do take effect
 		try := func(kind, name string, n int) {
 			v, _ := c29nth(f, n, 5)
 			other, _ := c29nth(f, n+2, 5)
@@ -1198,7 +1171,9 @@ func c29documentedNames(t *testing.T, run *verifkit.Run, fields []c29field) {
 					fmt.Sprintf("%s: a valid value given through the documented %s %q is rejected: %s", d.Path, kind, name, r.why()), ld)
 			default:
 				run.Nontrivial("documented/" + kind + "/" + name)
-				if got := c29render(c29effective(r, f)); got != c29render(want) {
+				if got := c29render(c29effective(r, f)); got == c29render(want) {
+					effective[kind+"/"+name] = true
+				} else {
 					run.Violation("C29/documented-name-without-effect/"+kind+"/"+name,
 						fmt.Sprintf("%s: the documented %s %s=%s has no effect: effective value %s (the file's), expected %s", d.Path, kind, name, v.CLI, got, c29render(want)),
 						map[string]any{"setting": d.Path, "documented": d, "load": ld, "effective": got, "cmdenv_tag": f.CmdEnv})
@@ -1207,6 +1182,24 @@ func c29documentedNames(t *testing.T, run *verifkit.Run, fields []c29field) {
 		}
 		for i, e := range d.Envs {
 			try("env", e, i)
+		}
+		// several documented variables for one setting: the one documented first is the
+		// specific one and wins over the shared one (README: "REFINERY_HONEYCOMB_LOGGER_API_KEY
+		// takes precedence over REFINERY_HONEYCOMB_API_KEY")
+		if len(d.Envs) > 1 && effective["env/"+d.Envs[0]] && effective["env/"+d.Envs[1]] {
+			v0, _ := c29nth(f, 0, 6)
+			v1, _ := c29nth(f, 1, 6)
+			ld := c29load{Files: []string{c29base}, Env: map[string]string{d.Envs[0]: v0.CLI, d.Envs[1]: v1.CLI}}
+			r := c29run(t, ld)
+			run.Eval(1)
+			if r.accepted() {
+				run.Nontrivial("documented-order/" + d.Path)
+				want, _ := c29decode(f, v0.YAML)
+				if got := c29render(c29effective(r, f)); got != c29render(want) {
+					run.Violation("C29/precedence/"+d.Path+"/specific-env-loses-to-shared-env",
+						fmt.Sprintf("%s: %s=%s and %s=%s are both set; effective %s, expected the specific variable's %s", d.Path, d.Envs[0], v0.CLI, d.Envs[1], v1.CLI, got, c29render(want)), ld)
+				}
+			}
 		}
 		for i, fl := range d.Flags {
 			try("flag", fl, i)
